@@ -119,6 +119,19 @@ def slicer_json_literals(ser: int, axis_sel: int, mask: int) -> bool:
     return _check(3, ser, axis_sel, keep)
 
 
+def slicer_request_order(ser: int, axis_sel: int, mask: int, rot: int) -> bool:
+    """
+    require: 0 <= ser < 6 and 0 <= axis_sel < 2 and 1 <= mask < 16 and 0 <= rot < 3
+    """
+    # the ids file may list the ids in any order: the result is the table's order all the same (what filter gives)
+    n = 3 if axis_sel == 0 else 4
+    keep = [k for k in range(n) if (mask >> k) & 1]
+    if len(keep) < 2:
+        return True
+    keep = keep[::-1] if rot == 0 else keep[rot % len(keep):] + keep[:rot % len(keep)]
+    return _check(0, ser, axis_sel, keep)
+
+
 def slicer_awkward_text(axis_sel: int, mask: int) -> bool:
     """
     require: 0 <= axis_sel < 2 and 1 <= mask < 8
@@ -174,6 +187,8 @@ def shards(tier):
         for ax in (0, 1):
             out.append(('slicer_small', {'ser': ser, 'axis_sel': ax}))
             out.append(('slicer_json_literals', {'ser': ser, 'axis_sel': ax}))
+            if ser in (0, 3) or tier != 'quick':
+                out.append(('slicer_request_order', {'ser': ser, 'axis_sel': ax}))
             out.append(('unknown_id_refused', {'ser': ser, 'axis_sel': ax}))
             if tier != 'quick':
                 for p1, p2 in [(a_, b_) for a_ in range(0, 9) for b_ in range(a_ + 1, 10)]:
